@@ -1,10 +1,12 @@
 ----------------------------- MODULE LatticeGen -----------------------------
-(* Vector generation (spec -> code): for every descriptor of the catalogue TLC enumerates the
+(* Vector generation (spec -> code), definitions only; the emitting actions are in LatticeMC
+   (EmitType / EmitBimo) so that one TLC run both checks the laws on the model and writes the
+   vectors.  For every descriptor of the catalogue TLC enumerates the
    whole concrete carrier Reps(t) and writes, one ndjson file per descriptor under IOEnv.OUT,
      k="v"  one line per value a            expected IsBot / IsTop / number of model atoms
-     k="p"  one line per ordered pair a,b   expected Join (abstract), Changed flag, Cmp
+     k="p"  one line per ordered pair a,b   expected Changed flag, Cmp
      k="t"  one line per triple a,b,c (a spread sample of at most TRIPLECAP values per type)
-     k="b"  bimorphism cases (a, da, b, side) with the expected output
+     k="b"  bimorphism cases (a, delta, b, side)
    The harness rebuilds a, b, c in every backing representation, runs the real operations and
    logs what the code returned; LatticeTrace re-evaluates every logged operation. The expected
    values written here are used by the harness only as a cross-check of its scalar outputs
@@ -13,52 +15,46 @@ EXTENDS LatticeCat, Json, IOUtils, SequencesExt
 
 CONSTANTS TRIPLECAP, PAIRCAP    \* at most TRIPLECAP^3 triples / PAIRCAP^2 pairs per descriptor (spread sample)
 
-VARIABLES ph, ty
 Mod(x, y) == x % y
 Div(x, y) == x \div y
-vars == <<ph, ty>>
 
 \* a spread sample of at most cap elements of a sequence
 Spread(s, cap) ==
     IF Len(s) <= cap THEN s
     ELSE [i \in 1..cap |-> s[1 + Div((i - 1) * (Len(s) - 1), cap - 1)]]
 
-ValLines(n, t, rs) ==
+ValLines(n, t, rs, as) ==
     [i \in 1..Len(rs) |->
-        LET a == Abs(t, rs[i]) IN
-        [ty |-> n, k |-> "v", a |-> rs[i], xbot |-> B(IsBot(t, a)), xtop |-> B(IsTop(t, a)),
+        [ty |-> n, k |-> "v", a |-> rs[i], xbot |-> B(IsBot(t, as[i])), xtop |-> B(IsTop(t, as[i])),
          xtopcode |-> B(IsTopCode(t, rs[i])),
-         xatoms |-> IF Atomizable(t) THEN Cardinality(Atoms(t, a)) ELSE -1]]
+         xatoms |-> IF Atomizable(t) THEN Cardinality(Atoms(t, as[i])) ELSE -1]]
 
-PairSeq(t, rs0) ==
-    LET rs == Spread(rs0, PAIRCAP) IN
-    SelectSeq([i \in 1..(Len(rs) * Len(rs)) |-> <<rs[1 + Div(i - 1, Len(rs))], rs[1 + Mod(i - 1, Len(rs))]>>],
-              LAMBDA p : Compat(t, Abs(t, p[1]), Abs(t, p[2])))
+\* rs: sequence of representations, as: their abstract values (computed once)
+PairLines(n, t, rs0, as0) ==
+    LET rs == Spread(rs0, PAIRCAP)
+        as == Spread(as0, PAIRCAP)
+        m == Len(rs)
+        idx == SelectSeq([i \in 1..(m * m) |-> <<1 + Div(i - 1, m), 1 + Mod(i - 1, m)>>],
+                         LAMBDA p : Compat(t, as[p[1]], as[p[2]]))
+    IN [i \in 1..Len(idx) |->
+            LET a == as[idx[i][1]]  b == as[idx[i][2]] IN
+            [ty |-> n, k |-> "p", a |-> rs[idx[i][1]], b |-> rs[idx[i][2]],
+             xflag |-> B(Changed(t, a, b)), xcmp |-> Cmp(t, a, b)]]
 
-PairLines(n, t, rs) ==
-    LET ps == PairSeq(t, rs) IN
-    [i \in 1..Len(ps) |->
-        LET a == Abs(t, ps[i][1])  b == Abs(t, ps[i][2]) IN
-        [ty |-> n, k |-> "p", a |-> ps[i][1], b |-> ps[i][2],
-         xj |-> Join(t, a, b), xflag |-> B(Changed(t, a, b)), xcmp |-> Cmp(t, a, b)]]
-
-TripleLines(n, t, rs) ==
-    LET s == Spread(rs, TRIPLECAP)
+TripleLines(n, t, rs0, as0) ==
+    LET s == Spread(rs0, TRIPLECAP)
+        as == Spread(as0, TRIPLECAP)
         m == Len(s)
-        all == [i \in 1..(m * m * m) |->
-                    <<s[1 + Div(i - 1, m * m)], s[1 + Mod(Div(i - 1, m), m)], s[1 + Mod(i - 1, m)]>>]
-        ok == SelectSeq(all, LAMBDA q :
-                    LET a == Abs(t, q[1]) b == Abs(t, q[2]) c == Abs(t, q[3]) IN
-                    Compat(t, a, b) /\ Compat(t, b, c) /\ Compat(t, a, c))
-    IN [i \in 1..Len(ok) |->
-            [ty |-> n, k |-> "t", a |-> ok[i][1], b |-> ok[i][2], c |-> ok[i][3],
-             xj |-> LET a == Abs(t, ok[i][1]) b == Abs(t, ok[i][2]) c == Abs(t, ok[i][3])
-                    IN Join(t, Join(t, a, b), c)]]
+        idx == SelectSeq([i \in 1..(m * m * m) |-> <<1 + Div(i - 1, m * m), 1 + Mod(Div(i - 1, m), m), 1 + Mod(i - 1, m)>>],
+                         LAMBDA q : Compat(t, as[q[1]], as[q[2]]) /\ Compat(t, as[q[2]], as[q[3]])
+                                    /\ Compat(t, as[q[1]], as[q[3]]))
+    IN [i \in 1..Len(idx) |-> [ty |-> n, k |-> "t", a |-> s[idx[i][1]], b |-> s[idx[i][2]], c |-> s[idx[i][3]]]]
 
 TypeLines(n) ==
     LET t == Catalogue[n]
         rs == SetToSeq(Reps(t))
-    IN ValLines(n, t, rs) \o PairLines(n, t, rs) \o TripleLines(n, t, rs)
+        as == [i \in 1..Len(rs) |-> Abs(t, rs[i])]
+    IN ValLines(n, t, rs, as) \o PairLines(n, t, rs, as) \o TripleLines(n, t, rs, as)
 
 BimoLines(n) ==
     LET bm == Bimos[n]
@@ -72,27 +68,10 @@ BimoLines(n) ==
                       rb[1 + Mod(i - 1, Len(rb))]>>]
     IN [i \in 1..Len(left) |->
             [f |-> n, k |-> "b", side |-> "L", a |-> left[i][1], d |-> left[i][2], b |-> left[i][3],
-             xo |-> BimoApply(bm.f, Join(bm.ta, Abs(bm.ta, left[i][1]), Abs(bm.ta, left[i][2])),
-                              Abs(bm.tb, left[i][3]))]]
+             xo |-> 0]]
        \o
        [i \in 1..Len(right) |->
             [f |-> n, k |-> "b", side |-> "R", a |-> right[i][1], b |-> right[i][2], d |-> right[i][3],
-             xo |-> BimoApply(bm.f, Abs(bm.ta, right[i][1]),
-                              Join(bm.tb, Abs(bm.tb, right[i][2]), Abs(bm.tb, right[i][3])))]]
+             xo |-> 0]]
 
-Init == ph = "start" /\ ty = ""
-EmitType ==
-    /\ ph = "start"
-    /\ \E n \in Names :
-          /\ ty' = n
-          /\ ndJsonSerialize(IOEnv.OUT \o "/" \o n \o ".ndjson", TypeLines(n))
-    /\ ph' = "done"
-EmitBimo ==
-    /\ ph = "start"
-    /\ \E n \in BimoIds :
-          /\ ty' = n
-          /\ ndJsonSerialize(IOEnv.OUT \o "/bimo_" \o n \o ".ndjson", BimoLines(n))
-    /\ ph' = "done"
-Next == EmitType \/ EmitBimo
-Spec == Init /\ [][Next]_vars
 =============================================================================
